@@ -17,6 +17,8 @@ import (
 	"strings"
 
 	"golang.org/x/tools/go/packages"
+
+	"rscheck/pat"
 )
 
 // Module is the import-path prefix of the analysed module.
@@ -171,6 +173,9 @@ func Load(withTests bool, goos string) (*Program, error) {
 		}
 	}
 	sort.Slice(p.Pkgs, func(i, j int) bool { return p.Pkgs[i].ID < p.Pkgs[j].ID })
+	for _, pk := range p.Pkgs {
+		pat.RegisterPackage(pk.TypesInfo, pk.Syntax)
+	}
 	n := 0
 	for _, pk := range p.Pkgs {
 		if pk.ID == pk.PkgPath {
